@@ -211,7 +211,12 @@ func runRelay(t *testing.T, w *vt.Writer, s *c19Scenario) {
 		atomic.StoreInt32(&torndown, 1)
 		la.A.Close()
 		lb.A.Close()
-		<-done
+		// a relay that does not even return once both of its connections are closed stays behind (a leaked goroutine of
+		// the code under test, already reported as Stuck): do not wait for it for ever
+		select {
+		case <-done:
+		case <-time.After(2 * time.Second):
+		}
 	}
 }
 
@@ -291,7 +296,11 @@ func runRelayTCP(t *testing.T, w *vt.Writer, s *c19Scenario) {
 	if !returned {
 		a.Close()
 		lb.A.Close()
-		<-done
+		// (a relay that does not return even now stays behind: reported above, not waited for)
+		select {
+		case <-done:
+		case <-time.After(2 * time.Second):
+		}
 	}
 }
 
